@@ -307,6 +307,29 @@ def main():
         for _ in range(1 + rng.below(3)):
             m = mutate_bytes(rng, m)
         uj({"op": "decode", "kind": "flat", "bytes": m.hex()}, "flat-mutant")
+    # every prefix of programs that carry a constant of every type (plain, in lists, in pairs),
+    # placed behind elements of odd bit width (7-bit builtin tags, 1-bit list markers of
+    # constr / case) so that the cut falls on every bit alignment of the constant's fields
+    consts = [["con", "bool", True], ["con", "unit", None], ["con", "integer", "-300"], ["con", "bytestring", "00ff"], ["con", "string", "aé"], ["con", "data", {"l": [{"i": "1"}]}],
+              ["con", ["list", "bool"], [True, False, True, True, False]], ["con", ["list", "unit"], [None, None]], ["con", ["list", "integer"], ["1", "-1"]], ["con", ["list", "data"], [{"i": "1"}, {"b": ""}]],
+              ["con", ["pair", "bool", "bool"], [True, False]], ["con", ["list", ["pair", "bool", "bool"]], [[True, False], [False, True]]], ["con", ["pair", ["list", "bool"], "unit"], [[True], None]],
+              ["con", ["list", ["list", "bool"]], [[True], [], [False, False]]], ["con", ["pair", "integer", "bytestring"], ["7", "ab"]], ["con", ["list", "string"], ["x", ""]]]
+    wrappers = [lambda c: c, lambda c: ["app", ["builtin", "headList"], c], lambda c: ["constr", 0, [c]], lambda c: ["case", ["constr", 0, []], [c]],
+                lambda c: ["app", ["app", ["builtin", "mkCons"], c], c], lambda c: ["lam", ["constr", 1, [c, c]]], lambda c: ["delay", ["app", ["force", ["builtin", "fstPair"]], c]]]
+    pterms = [w(c) for c in consts for w in wrappers]
+    pres2 = common.run_jobs("uplc-run", [{"id": i, "op": "codec", "term": t} for i, t in enumerate(pterms)])
+    for r in pres2.values():
+        if "flat" not in r:
+            continue
+        fb = bytes.fromhex(r["flat"])
+        for cut in range(len(fb)):
+            uj({"op": "decode", "kind": "flat", "bytes": fb[:cut].hex()}, "flat-every-prefix")
+            if cut % 3 == 0:  # the same prefix inside a well-formed CBOR byte string (from_cbor / from_hex path)
+                hdr = bytes([0x40 + cut]) if cut < 24 else bytes([0x58, cut]) if cut < 256 else bytes([0x59]) + cut.to_bytes(2, "big")
+                uj({"op": "decode", "kind": "cbor", "bytes": (hdr + fb[:cut]).hex()}, "flat-prefix-in-cbor")
+        cb = bytes.fromhex(r["cbor"])
+        for cut in range(max(0, len(cb) - 6), len(cb)):
+            uj({"op": "decode", "kind": "cbor", "bytes": cb[:cut].hex()}, "cbor-prefix")
     for _ in range(700 * scale):
         src = rng.pick(cbors) if cbors else b""
         m = mutate_bytes(rng, src)
